@@ -4,34 +4,45 @@ import tour, vlib
 
 MANIFEST = {
     "modules": ["Conditions"],
-    "text": "TLC checks the independently stated clauses of C10 (less-than-n exact + progress = value/n, every-n on "
+    "text": "TLC checks the independently stated clauses of C10 (less-than-n exact + progress = value/n -- on unsigned "
+            "counters and on SIGNED lenses (an f64 state in halves, an i32 state) with negative, zero (+0.0 and -0.0) and "
+            "fractional bounds and values: true exactly while value < n for every sign combination, progress value/n "
+            "with its sign, value/+-0 as the arithmetic defines it; a loop driven by such a condition, whose body raises "
+            "the value by d per pass, makes exactly the passes the statement implies, tests once more and counts them "
+            "-- SLoopExact --, every-n on "
             "multiples, change-of against the value last reported incl. a history variable for all value histories "
             "up to the bound, optimum-reached, random-chance counting, and/or/not = every operand exactly once + "
             "Boolean combination, loop passes = n and tests = n + 1, loops and scopes nested in one another: in "
             "every program in which each scope hosts at most one loop every loop counts 0..n on its own counter "
             "with progress k/n whatever runs inside or around it -- NestExact, NestOwnCounter -- and no scope "
             "changes what its surroundings see -- ScopeIsolates) exhaustively on bounded models of "
-            "Conditions.tla; every transition of those models (all (n, value) pairs, all prepared change-of states, "
+            "Conditions.tla; every transition of those models (all (n, value) pairs incl. all sign combinations over "
+            "-1.5..1.5 and both zeros, loops towards every signed bound, all prepared change-of states incl. "
+            "differences across zero, "
             "all formulas up to the depth bound over scripted operands, loops with a real LessThanN::iterations(n) "
             "and a counting body, all loop/scope/tick/set programs up to the node bound run as init-require-execute "
             "with probes at every tick, condition test and scope border) is replayed on the real mahf conditions "
             "and Loop/Scope/Block components, and "
             "seeded random histories (n up to 10^4, random formulas of depth <= 5, random nested programs up to 4 "
-            "deep and an (n, m) grid of scoped loop nests, float-neighbour cases of "
+            "deep and an (n, m) grid of scoped loop nests, a signed grid {+-10, +-3.5, +-3, +-2.5, +-1, +-0.5, +0, -0}^2 "
+            "of (bound, value) pairs and loops from below / at / above every bound on both signed lenses, seeded "
+            "signed values next to n, -n and 0 up to +-10^4, float-neighbour cases of "
             "optimum-reached, 4000-evaluation frequency series of random-chance judged at 6 sigma by the spec) are "
             "recorded; TLC validates every recorded call (arguments, reply, observed values, progress fraction) as "
             "a step of the spec.",
     "technique": "TLA+ spec + TLC model checking + TLC trace validation of replayed transition tours and random histories",
     "design_ref": "DESIGN.md §6 C10",
     "note": "generic conditions exercised at lenses ValueOf<Iterations>, ValueOf<Evaluations> (u32), ValueOf<FVal> (f64), "
+            "ValueOf<SVal> (signed f64), ValueOf<IVal> (i32), "
             "BestObjectiveValueLens (SingleObjective); change-of's Previous<T> is private to mahf and is observed only "
             "through later replies; random-chance is a 6-sigma frequency test",
 }
 
 PROPS = ("UnreadableIsError LessThanExact EveryExact ChangeExact OptimumExact ChanceCounted LogicExact "
-         "LoopExact LoopFromAnywhere NestExact NestOwnCounter ScopeIsolates")
+         "LoopExact LoopFromAnywhere SLoopExact NestExact NestOwnCounter ScopeIsolates")
 
-ALL_LENS = ["iter", "eval", "fval", "obj"]
+ALL_LENS = ["iter", "eval", "fval", "obj", "sval", "ival"]
+SOFF = 100000      # code of the number 0 on the signed lenses (Conditions.tla, SOff)
 
 
 def tla_set(xs):
@@ -64,7 +75,7 @@ def cfg_trace():
             "POSTCONDITION TraceDone\nCHECK_DEADLOCK FALSE\n")
 
 
-EVALS = ("lt", "every", "co", "optimum", "optimum_at", "rc", "rc_end", "logic", "loop", "nest")
+EVALS = ("lt", "every", "co", "optimum", "optimum_at", "rc", "rc_end", "logic", "loop", "sloop", "nest")
 
 DESCRIBE = {
     "state": lambda r: [r["obs"], r["progress"]],
@@ -76,7 +87,8 @@ DESCRIBE = {
 
 RULE = ("cases = calls (set observed value, Condition::init, Condition::evaluate of LessThanN / EveryN / ChangeOf / "
         "OptimumReached / RandomChance / And-Or-Not formulas over scripted operands, execution of a Loop with a real "
-        "LessThanN::iterations(n) and a counting body, run of a program of nested Loops / Scopes with probes) "
+        "LessThanN::iterations(n) and a counting body, execution of a Loop with a real LessThanN on a signed lens and a "
+        "body raising the value, run of a program of nested Loops / Scopes with probes) "
         "executed on the real mahf code from a given abstract state; "
         "generated by (B) transition tours over every transition of the bounded TLC models and (C) seeded random "
         "histories, grids and frequency series; non-trivial = a condition was evaluated or a loop was run, or the "
@@ -96,6 +108,16 @@ def models(q):
                      ops=["set", "lt", "every", "co"])),
         # f64 lens
         ("fval", dict(lens=["fval"], val=[0, 1, 2, 3], ns=[0, 1, 2], ops=["set", "lt", "co"])),
+        # signed f64 lens (values and bounds in halves: -1.5 .. 1.5, both zeros): all (n, value) pairs of
+        # less-than-n for every sign combination; loops raising the value by 1 or 2 halves towards every bound
+        ("sval", dict(lens=["sval"], val=range(SOFF - 3, SOFF + (4 if q else 5)), ns=range(SOFF - 3, SOFF + (3 if q else 4)),
+                      ds=[1, 2], ops=["set", "lt", "sloop"])),
+        # signed integer lens (i32), next to the loop's own counter
+        ("ival", dict(lens=["ival", "iter"], val=[0] + list(range(SOFF - 2, SOFF + 2)),
+                      ns=range(SOFF - 1, SOFF + 2), ds=[1, 2], ops=["set", "lt", "sloop"])),
+        # change-of on the signed lenses: differences across zero with both checkers (i32), +0.0 / -0.0 are one value (f64)
+        ("sco", dict(lens=["ival"], val=range(SOFF - 2, SOFF + 3), ds=[0, 1, 2, 3], ops=["set", "co"])),
+        ("scof", dict(lens=["sval"], val=range(SOFF - 1, SOFF + 2), ops=["set", "co"])),
         # best-objective lens: change-of with both checkers, optimum-reached on a lattice straddling opt + eps
         ("obj", dict(lens=["obj"], val=[0, 1, 2, 3], ds=[1, 2], eps=[0, 1], opts=[0, 1],
                      ops=["set", "co", "optimum"])),
@@ -209,7 +231,15 @@ def run(ctx):
                cfg_hist(4 if q else 5, lens=["iter"], val=[0, 1, 2], ds=[1, 2], ops=["set", "co"]),
                "mc-hist", workers=4, timeout=1500)
     vlib.vacuity(all_edges, "act.op", ["set", "lt_init", "lt", "every", "co_init", "co", "optimum", "optimum_at",
-                                       "rc", "rc_end", "logic", "loop", "nest"], "call")
+                                       "rc", "rc_end", "logic", "loop", "sloop", "nest"], "call")
+    signed = [e for e in all_edges if e["act"]["l"] in ("sval", "ival")]
+    for f in ("-", "nz"):      # both zeros as a bound, both replies for each
+        vlib.vacuity([e for e in signed if e["act"]["op"] == "lt" and e["act"]["n"] == SOFF and e["act"]["f"] == f],
+                     "res.b", [0, 1], "reply of less-than-n with the zero bound %r" % f)
+    vlib.vacuity([e for e in signed if e["act"]["op"] == "lt" and e["act"]["n"] < SOFF], "res.b", [0, 1],
+                 "reply of less-than-n with a negative bound")
+    vlib.vacuity([e for e in signed if e["act"]["op"] == "sloop" and e["res"]["k"] == "ok"], "res.p", [0, 1, 2, 3],
+                 "passes of a loop on a signed lens")
     vlib.vacuity(all_edges, "res.k", ["ok", "err", "bool", "ctor_err"], "reply kind")
     for op in ("lt", "every", "co", "optimum", "optimum_at", "rc", "logic"):
         vlib.vacuity([e for e in all_edges if e["act"]["op"] == op], "res.b", [0, 1], "reply of " + op)
@@ -225,7 +255,8 @@ def run(ctx):
     ctx.validate("Trace_Conditions", cfg_trace(), tr2, "random", DESCRIBE, {"driver": "conditions"},
                  max_rejections=2)
     ctx.assumptions += [
-        "observed values are naturals mapped to u32 (iter, eval), k/2 as f64 (fval), k/4 as objective (obj, eps, optimum)",
+        "observed values are naturals mapped to u32 (iter, eval), k/2 as f64 (fval), k/4 as objective (obj, eps, optimum); "
+        "signed lenses: code 100000 + k is k/2 as f64 (sval) and k as i32 (ival), f = nz makes a zero the float -0.0",
         "progress is compared as the exact fraction value/n recovered from the f64 (P-pred: bit-identical quotient)",
         "operands of And/Or are taken to be evaluated left to right (order matters only when an operand fails)",
         "random-chance: frequency within 6 sigma over 4000 seeded evaluations per probability (p = 0, 1 exact)",
